@@ -119,3 +119,33 @@ func LegacyFrame(data []byte, next []cid.Cid) (ipldbindcode.DataFrame, []byte) {
 	}
 	return f, encodeNode(&f, ipldbindcode.Prototypes.DataFrame.Type())
 }
+
+// HeaderVersionFirst rewrites the CAR header so that the "version" entry of its map precedes
+// "roots". go-car writes roots first; the other order is the same header (a CBOR map has no
+// order), has the same length, and is what other CAR writers may produce. Reports whether the
+// header had the expected shape and was rewritten.
+func (w *World) HeaderVersionFirst() bool {
+	_, n := binary.Uvarint(w.CAR)
+	if n <= 0 || w.HeaderLen <= n+16 {
+		return false
+	}
+	hdr := w.CAR[n:w.HeaderLen]
+	rootsKey := []byte("\x65roots")
+	versionEntry := []byte("\x67version\x01")
+	if hdr[0] != 0xa2 || !bytes.HasPrefix(hdr[1:], rootsKey) || !bytes.HasSuffix(hdr, versionEntry) {
+		return false
+	}
+	rootsVal := hdr[1+len(rootsKey) : len(hdr)-len(versionEntry)]
+	out := make([]byte, 0, len(hdr))
+	out = append(out, 0xa2)
+	out = append(out, versionEntry...)
+	out = append(out, rootsKey...)
+	out = append(out, rootsVal...)
+	if len(out) != len(hdr) {
+		return false
+	}
+	car := append([]byte(nil), w.CAR...)
+	copy(car[n:w.HeaderLen], out)
+	w.CAR = car
+	return true
+}
